@@ -182,8 +182,12 @@ class Model:
 
         if self.sup_model.vars:
 
-            adapt_list = [dvar.rand_adapt if dvar.rand_adapt is not None else
-                          np.zeros((dvar.size, self.sup_model.vars[-1].last))
+            num_rand = self.sup_model.vars[-1].last
+            adapt_list = [np.pad(dvar.rand_adapt,
+                                 ((0, 0),
+                                  (0, num_rand - dvar.rand_adapt.shape[1])))
+                          if dvar.rand_adapt is not None else
+                          np.zeros((dvar.size, num_rand))
                           for dvar in self.dec_vars]
             depend_mat = np.concatenate(adapt_list, axis=0)
             if depend_mat.sum() > 0:
